@@ -10,7 +10,7 @@ import z3
 
 from . import core
 from .core import (
-    ModelledMisalignment, And, B, Cell, Col, F, I, Idx, If, Not, Or, Sum, SymBase, SymScalar, T, Unsupported, StructuralError,
+    ModelledMisalignment, MissingLabel, And, B, Cell, Col, F, I, Idx, If, Not, Or, Sum, SymBase, SymScalar, T, Unsupported, StructuralError,
     _DType, _RowsMixin, _dtype_kind, _install_binops, cell_binop, cell_eq, count, decide, is_f, is_null_literal,
     is_t, lit_cell, ranks, same_valid, uf, before,
 )
@@ -268,6 +268,10 @@ class SymSeries(_RowsMixin, SymBase):
 
     __abs__ = abs
 
+    def sqrt(self):
+        cells = [Cell(uf("SQRT", c.num()), Or(c.null, c.num() < 0), "f") for c in self.cells()]
+        return self._with(col=Col.from_cells(cells, "f"))
+
     def isna(self):
         return self._with(col=Col("b", list(self.col.nulls)))
 
@@ -466,7 +470,7 @@ class SymSeries(_RowsMixin, SymBase):
             sname = self.name if self.name is not None else 0
         else:
             sname = name  # an explicit name=None gives a column labelled None
-        cols = [(iname, Col("i", [I(v) for v in self.index_.vals])), (sname, self.col)]
+        cols = [(iname, self.index_.column()), (sname, self.col)]
         return SymFrame(cols, self.valid, Idx.undefined(self.nslots), self.prov, self.order)
 
     def squeeze(self, axis=None):
@@ -721,7 +725,7 @@ class SymIndex(_RowsMixin, SymBase):
 
     @name.setter
     def name(self, value):
-        self.idx = Idx(self.idx.vals, value, self.idx.defined, self.idx.labels)
+        self.idx = Idx(self.idx.vals, value, self.idx.defined, self.idx.labels, self.idx.nan)
         if self.owner is not None:
             self.owner.index_ = self.idx
 
@@ -745,7 +749,7 @@ class SymIndex(_RowsMixin, SymBase):
 
     def cells(self):
         self._need()
-        return [Cell(I(v), F, "i") for v in self.idx.vals]
+        return self.idx.column().cells()
 
     def _with(self, valid=None, idx=None):
         return SymIndex(idx if idx is not None else self.idx, valid if valid is not None else self.valid, self.prov, self.order)
@@ -800,7 +804,7 @@ class SymIndex(_RowsMixin, SymBase):
         return self.to_series().isin(values)
 
     def rename(self, name=None, **kw):
-        return self._with(idx=Idx(self.idx.vals, name, self.idx.defined, self.idx.labels))
+        return self._with(idx=Idx(self.idx.vals, name, self.idx.defined, self.idx.labels, self.idx.nan))
 
     def copy(self, deep=True):
         return self._with()
@@ -851,10 +855,10 @@ class SymLabelSeries(SymBase):
         if isinstance(key, list):
             missing = [k for k in key if k not in self.labels]
             if missing:
-                raise StructuralError(f"labels {missing} not in {self.labels}")
+                raise MissingLabel(f"labels {missing} not in {self.labels}")
             return SymLabelSeries(key, [self.cells_[self.labels.index(k)] for k in key], self.name)
         if key not in self.labels:
-            raise StructuralError(f"label {key!r} not in {self.labels}")
+            raise MissingLabel(f"label {key!r} not in {self.labels}")
         if self.labels.count(key) > 1:
             raise StructuralError(f"label {key!r} duplicated in {self.labels}")
         return SymScalar(self.cells_[self.labels.index(key)])
@@ -929,7 +933,16 @@ class _LabelFrame:
 class SymFrame(_RowsMixin, SymBase):
     ndim = 2
 
-    def __init__(self, cols, valid, index: Idx, prov, order=None):
+    def __init__(self, cols, valid=None, index: Idx = None, prov=None, order=None):
+        if valid is None and isinstance(cols, dict):
+            # pandas.DataFrame({label: series}) over series of the same rows (what dask's groupby helpers build)
+            sers = list(cols.items())
+            if not sers or not all(isinstance(v, SymSeries) for _, v in sers):
+                raise Unsupported("frame from a mapping of non-series")
+            first = sers[0][1]
+            if not all(v.prov == first.prov and same_valid(v.valid, first.valid) for _, v in sers):
+                raise Unsupported("frame from a mapping of differently indexed series")
+            cols, valid, index, prov, order = [(k, v.col) for k, v in sers], first.valid, first.index_, first.prov, first.order
         self.cols = list(cols) if not isinstance(cols, OrderedDict) else list(cols.items())  # list of (label, Col): duplicates representable
         self.valid, self.index_, self.prov, self.order = list(valid), index, list(prov), order
         n = len(self.valid)
@@ -993,12 +1006,17 @@ class SymFrame(_RowsMixin, SymBase):
     def col(self, key):
         hits = [c for k, c in self.cols if k == key or (is_null_literal(k) and is_null_literal(key))]
         if not hits:
-            raise StructuralError(f"column {key!r} not in {self.labels}")
+            raise MissingLabel(f"column {key!r} not in {self.labels}")
         if len(hits) > 1:
             raise StructuralError(f"column {key!r} duplicated in {self.labels}")
         return hits[0]
 
     def _series(self, key):
+        if not isinstance(key, tuple) and key not in self.labels:
+            # columns labelled by tuples (pandas MultiIndex): a first-level label selects the sub-frame
+            sub = [(k[1] if len(k) == 2 else k[1:], c) for k, c in self.cols if isinstance(k, tuple) and len(k) >= 2 and k[0] == key]
+            if sub:
+                return self._with(cols=sub)
         return SymSeries(key, self.col(key), **self._row_attrs())
 
     def __getattr__(self, key):
@@ -1027,6 +1045,20 @@ class SymFrame(_RowsMixin, SymBase):
         return self._series(key)
 
     def __setitem__(self, key, val):
+        if isinstance(key, SymFrame):
+            # frame[boolean frame] = scalar
+            if isinstance(val, SymBase) and not isinstance(val, SymScalar):
+                raise Unsupported("masked assignment of a non-scalar")
+            new = self.mask(key, val)
+            self.cols = new.cols
+            return
+        if isinstance(key, (list, pd.Index)) and isinstance(val, SymFrame):
+            key = list(key)
+            if len(key) != len(val.cols) or val.prov != self.prov or not same_valid(self.valid, val.valid):
+                raise Unsupported("assignment of a differently shaped frame")
+            for k, (_, c) in zip(key, val.cols):
+                self[k] = SymSeries(k, c, **self._row_attrs())
+            return
         if isinstance(val, SymSeries):
             if val.prov != self.prov:
                 col = Col.from_cells(reindex_cells(val, self))  # pandas reindexes the value to the frame's index
@@ -1107,6 +1139,9 @@ class SymFrame(_RowsMixin, SymBase):
 
     def abs(self):
         return self._map_cols(lambda s: s.abs())
+
+    def sqrt(self):
+        return self._map_cols(lambda s: s.sqrt())
 
     def __neg__(self):
         return self._map_cols(lambda s: -s)
@@ -1292,7 +1327,7 @@ class SymFrame(_RowsMixin, SymBase):
         iname = self.index_.name if self.index_.name is not None else "index"
         if iname in self.labels:
             raise StructuralError(f"cannot insert {iname}, already exists")
-        cols = [(iname, Col("i", [I(v) for v in self.index_.vals]))] + list(self.cols)
+        cols = [(iname, self.index_.column())] + list(self.cols)
         return SymFrame(cols, self.valid, Idx.undefined(self.nslots), self.prov, self.order)
 
     def set_index(self, keys, drop=True, **kw):
@@ -1308,8 +1343,14 @@ class SymFrame(_RowsMixin, SymBase):
             col, name = self.col(keys), keys
             cols = [(k, c) for k, c in self.cols if k != keys] if drop else list(self.cols)
         if col.nullable:
-            raise Unsupported("set_index on nullable column")
-        out = SymFrame(cols, self.valid, Idx([c.num() for c in col.cells()], name, True), self.prov, self.order)
+            if col.kind == "b":
+                raise Unsupported("set_index on nullable bool column")
+            from .core import NAN_LABEL
+
+            idx = Idx([If(c.null, NAN_LABEL, c.num()) for c in col.cells()], name, True, nan=True)
+        else:
+            idx = Idx([c.num() for c in col.cells()], name, True)
+        out = SymFrame(cols, self.valid, idx, self.prov, self.order)
         if "divisions" in kw or "npartitions" in kw or kw.get("sorted") is not None or kw.get("sort") is True:
             # dask's set_index returns the frame sorted by the new index (pandas' set_index does not)
             out = SymFrame(out.cols, out.valid, out.index_, out.prov, None if isinstance(out.order, str) else out.order).sort_index()
@@ -1549,7 +1590,7 @@ def sym_concat(objs, ignore_index=False, axis=0, join="outer", **kw):
     defined = all(i.defined for i in idxs) and not ignore_index
     labels = any(i.labels for i in idxs)
     ivals = [v for i in idxs for v in i.vals]
-    index = Idx(ivals, idxs[0].name, defined, labels) if defined else Idx.undefined(len(ivals), idxs[0].name)
+    index = Idx(ivals, idxs[0].name, defined, labels, any(i.nan for i in idxs)) if defined else Idx.undefined(len(ivals), idxs[0].name)
     if isinstance(first, SymIndex):
         return SymIndex(index, valid, prov, order)
     if isinstance(first, SymSeries):
